@@ -32,7 +32,7 @@ Next ==
      \/ \E ver \in 1..4, kt \in {"local", "secret"} :
            \E kl \in (IF kt = "secret" /\ ver = 1 THEN V1SecretLens \cup SeqSet(Extra.v1secret) ELSE {KeyLen(ver, kt)}) :
               \/ c' = <<"pie", ver, kt, kl>>
-              \/ \E p \in 1..2 : c' = <<"pw", ver, kt, kl, p>>
+              \/ \E p \in 1..5 : c' = <<"pw", ver, kt, kl, p>>
               \/ \E x \in SeqSet(Extra.pw) : x[1] = ver /\ c' = <<"pwx", ver, kt, kl, <<x[2], x[3], x[4]>>>>
      \/ \E ver \in 1..4 : c' = <<"pke-recv", ver>> \/ c' = <<"pke-send", ver>>
      \/ \E ver \in 1..4, kind \in {"local", "public", "secret"} :
@@ -78,8 +78,9 @@ PieCase(ver, kt, kl) ==
    data_iv |-> IF ver \in {1, 3} THEN Pie13With(ver, kt, In("wk", 32), In("n", 32), In("ptk", kl), In("iv", 16)) ELSE B(<< >>),
    nonce_at |-> PieTagLen(ver), nonce_len |-> PieNonceLen, len |-> PieLen(ver, kl)]
 
-PwCost(ver, p) == IF ver \in {1, 3} THEN (IF p = 1 THEN <<1, 0, 0>> ELSE <<1000, 0, 0>>)
-                  ELSE (IF p = 1 THEN <<8, 1, 1>> ELSE <<64, 2, 1>>)     \* (iterations | mem KiB, time, para)
+\* (iterations | mem KiB, time, para): small costs, incl. memory sizes that are not a multiple of 4 KiB and several lanes
+PwCost(ver, p) == IF ver \in {1, 3} THEN (CASE p = 1 -> <<1, 0, 0>> [] p = 2 -> <<1000, 0, 0>> [] p = 3 -> <<7, 0, 0>> [] p = 4 -> <<2, 0, 0>> [] p = 5 -> <<255, 0, 0>>)
+                  ELSE (CASE p = 1 -> <<8, 1, 1>> [] p = 2 -> <<64, 2, 1>> [] p = 3 -> <<9, 1, 1>> [] p = 4 -> <<1025, 3, 1>> [] p = 5 -> <<64, 1, 4>>)
 PwCaseCost(ver, kt, kl, cost) ==
   LET
       pw == In("pw", 0)        \* the password's length does not enter the layout
